@@ -59,6 +59,12 @@ var directed = []string{
 	"x := a * (b + c # cmt\n)", "(\n\na + b) * 2", "(/* c */ a + b) * 2", "name /* foo\n\t\tbar\n    x*/ 'b/* - */la' /*test*/",
 	"Foo := {\n  \"super\" : [ Bar ]\n\n  # Object ID\n  #\n  \"id\" : 0\n\n  \"idx\" : 0\n\n  # Constructor\n  #\n  \"init\" : 1\n}",
 	"mutex a {\n}\n\n\n/* c */\n\nb", "import \"a\" as b\n\n/* c */\n\nfor a in b {\n}", "sink a\n    priority -1\n    suppresses []\n{\n}", "sink s\n    kindmatch [\"a\"],\n    /* c */\n\n    priority 1\n{\n}", "sink s\n    /* c */\n\n    kindmatch [\"a\"]\n{\n}", "sink s\n    kindmatch [\"a\"]\n\n\n    # c\n\n    priority 1\n{\n}", "a\n/* c */\n\npriority 1", "a\n/* c */\n\nkindmatch []", "/* a */\n\n0 /* b */ % 0", "/**/\n\n0/**/%0", "/* a */\n\nx /* b */ := /* c */ 1", "# a\n\n\nf(1) /* b */ + 2", "let [a, b] := c\nlet     [a, b] := c",
+	// forms which do NOT parse today (excluded and counted as such): if a later version of the parser accepts one of them,
+	// the printer has to round-trip it like everything else
+	"if (conf == {\"debug\" : true}) {\n    a\n}", "for [k, v] in ({\"a\" : 1, \"b\" : 2}) {\n    a\n}", "if check({\"a\" : 1}) {\n    a\n}", "if x in [{\"a\" : 1}] {\n    a\n}",
+	"if a {\n    b\n} elif (c == {1 : 2}) {\n    d\n}", "for ({\"a\" : 1}).a > 0 {\n    break\n}", "for a, b in x {\n    c\n}", "x := 0x1f + 0b101 + 0o17", "x := a ? b : c", "x += 1", "x := l[1:2]",
+	"f(a=1, b=2)", "x := r'it\\'s'", "x := \"a\" \"b\"", "x := a ** b", "x := !a", "x := a if b else c", "func f(a, *rest) {\n}", "x := [i * 2 for i in l]", "try {\n} except \"a\" | \"b\" {\n}",
+	"x := {a : 1, b}", "let a, b := c", "a, b := c", "x := 1_000", "x := .5", "x := 5.", "x := 1e3", "x := -(-a)", "if a { b } else if c { d }", "while a {\n}", "x := a.b?.c", "x := f(1,)", "x := [1, 2,]", "x := {\"a\" : 1,}",
 	// a statement which needs its separating semicolon (starts with a sign or bracket) behind a statement ending in a comment / a bare return
 	"a := 1 # one\n;-b", "x := a # c\n;(x + b) * 2", "a # c\n;[1, 2][0]", "a /* c */;\n-b", "a /* c */\n;-b", "if x {\n    a # c\n    ;-b\n}", "a # c\n; +b\nd # e\n;(f)",
 	"func f() {\n    return;\n    -a\n}", "func f() {\n    return # c\n    ;-a\n}", "func f() {\n    return 1 # c\n    ;(a)\n}", "a # c\n\n;-b", "a\n# c\n;-b", "x := [1, 2] # c\n;[3][0]", "x := f() # c\n;(g)()",
